@@ -11,6 +11,7 @@ import (
 	"os/user"
 	"path"
 	"reflect"
+	"runtime"
 	"sort"
 	"strconv"
 	"strings"
@@ -701,6 +702,18 @@ func Yield(site string) {
 	if h := yieldHook; h != nil {
 		h(site)
 	}
+}
+
+// Gosched replaces runtime.Gosched (rule R10): under a scheduler a goroutine that
+// spins politely ("for !ready { runtime.Gosched() }") parks like at any other
+// schedule point, so that the scheduler - and not the spinning goroutine - decides
+// who runs; without one it is runtime.Gosched.
+func Gosched() {
+	if h := yieldHook; h != nil {
+		h("runtime.Gosched")
+		return
+	}
+	runtime.Gosched()
 }
 
 var selectHook func(site string, n int) []int
